@@ -47,44 +47,42 @@ func c12R1R3(p *core.Program, r *core.Report, np *core.Func) {
 	info := np.Info()
 	r.Floor("R1", 9)
 	r.Floor("R3", 4)
-	// the collecting closure: literal that stores into both comment-group maps
-	var col *core.Func
-	var leadStore, trailStore *ast.AssignStmt
-	for _, l := range np.Lits {
-		var ls, ts *ast.AssignStmt
+	// the collecting closure: the literal that stores into a comment-group index
+	isCGMap := func(t types.Type) bool {
+		if t == nil {
+			return false
+		}
+		m, ok := t.Underlying().(*types.Map)
+		return ok && core.NamedTypeName(m.Elem()) == "go/ast.CommentGroup"
+	}
+	storesIn := func(l *core.Func) []*ast.AssignStmt {
+		var out []*ast.AssignStmt
 		ast.Inspect(l.Body, func(n ast.Node) bool {
+			if lit, ok := n.(*ast.FuncLit); ok && lit != l.Lit {
+				return false
+			}
 			as, ok := n.(*ast.AssignStmt)
 			if !ok || len(as.Lhs) != 1 {
 				return true
 			}
-			ix, ok := ast.Unparen(as.Lhs[0]).(*ast.IndexExpr)
-			if !ok {
-				return true
-			}
-			if f := core.FieldOf(info, ix.X); isCommentGroupMapField(f) {
-				if isTrailingField(f) {
-					ts = as
-				} else {
-					ls = as
-				}
+			if ix, ok := ast.Unparen(as.Lhs[0]).(*ast.IndexExpr); ok && isCGMap(info.TypeOf(ix.X)) {
+				out = append(out, as)
 			}
 			return true
 		})
-		if ls != nil && ts != nil {
-			col, leadStore, trailStore = l, ls, ts
+		return out
+	}
+	var col *core.Func
+	for _, l := range np.Lits {
+		if len(storesIn(l)) > 0 && col == nil {
+			col = l
 		}
 	}
 	if col == nil {
 		r.Anchor("R1", "closure in newPkg that stores into the leading and the trailing comment index")
 		return
 	}
-	var colVar *types.Var
-	ast.Inspect(np.Body, func(n ast.Node) bool {
-		if as, ok := n.(*ast.AssignStmt); ok && len(as.Rhs) == 1 && as.Rhs[0] == ast.Expr(col.Lit) {
-			colVar = core.VarOf(info, as.Lhs[0])
-		}
-		return true
-	})
+	colVar := litVar(col)
 	params := col.Type.Params.List
 	var pGroup, pTrailing, pPos *types.Var
 	flat := []*types.Var{}
@@ -100,20 +98,84 @@ func c12R1R3(p *core.Program, r *core.Report, np *core.Func) {
 		r.Anchor("R1", "collecting closure has parameters (group, isTrailing, pos)")
 		return
 	}
-	// stores are on the right side of isTrailing
 	g := graph(col)
-	trailFact := func(at ast.Node, want bool) bool {
-		for _, f := range g.FactsAt(g.PointOf(at)) {
-			if core.VarOf(info, f.Cond) == pTrailing && f.Val == want {
-				return true
+	trailingID := identFor(info, col, pTrailing)
+	// which index does a store write when isTrailing == t ? ("" = store not executed under t)
+	type storeUnder struct {
+		S        *ast.AssignStmt
+		Trailing bool
+	}
+	var feasibleStores []storeUnder
+	classOf := func(st *ast.AssignStmt, t bool) (class string, feasible bool) {
+		assume := []cfgx.Fact{{Cond: trailingID, Val: t}}
+		at := g.PointOf(st)
+		if _, ok := g.Reach(g.Entry(), true, cfgx.Query{Target: func(q cfgx.Point) bool { return q == at }, CutEdge: assumeCut(info, assume)}); !ok {
+			return "", false
+		}
+		ix := ast.Unparen(st.Lhs[0]).(*ast.IndexExpr)
+		fieldClass := func(e ast.Expr) string {
+			f := core.FieldOf(info, e)
+			if !isCommentGroupMapField(f) {
+				return "?"
+			}
+			if isTrailingField(f) {
+				return "trailing"
+			}
+			return "leading"
+		}
+		if core.FieldOf(info, ix.X) != nil {
+			return fieldClass(ix.X), true
+		}
+		v := core.VarOf(info, ix.X)
+		if v == nil {
+			return "?", true
+		}
+		defs, fromEntry := reachingDefsAssuming(g, info, v, at, assume)
+		if fromEntry || len(defs) == 0 {
+			return "?", true
+		}
+		class = ""
+		for _, d := range defs {
+			c := "?"
+			if as, ok := d.Node().(*ast.AssignStmt); ok && len(as.Lhs) == 1 && len(as.Rhs) == 1 {
+				c = fieldClass(as.Rhs[0])
+			}
+			if class != "" && class != c {
+				return "?", true
+			}
+			class = c
+		}
+		return class, true
+	}
+	for _, st := range storesIn(col) {
+		for _, t := range []bool{false, true} {
+			class, feasible := classOf(st, t)
+			if !feasible {
+				continue
+			}
+			feasibleStores = append(feasibleStores, storeUnder{st, t})
+			valOK := core.VarOf(info, st.Rhs[0]) == pGroup
+			if t {
+				r.Check(class == "trailing" && valOK, "R1", col, "with isTrailing set the group goes to the trailing index", st.Pos(),
+					"store writes the trailing index under isTrailing == true", "with isTrailing == true this store writes the "+class+" index: a trailing comment is indexed as documentation")
+			} else {
+				r.Check(class == "leading" && valOK, "R1", col, "with isTrailing unset the group goes to the leading index", st.Pos(),
+					"store writes the leading index under isTrailing == false", "with isTrailing == false this store writes the "+class+" index: a doc comment is indexed as a trailing comment")
 			}
 		}
-		return false
 	}
-	r.Check(trailFact(leadStore, false) && core.VarOf(info, leadStore.Rhs[0]) == pGroup, "R1", col, "leading index receives the group only when isTrailing is false", leadStore.Pos(),
-		"store dominated by isTrailing == false", "the leading (doc) index is written on a path where isTrailing may be true")
-	r.Check(trailFact(trailStore, true) && core.VarOf(info, trailStore.Rhs[0]) == pGroup, "R1", col, "trailing index receives the group only when isTrailing is true", trailStore.Pos(),
-		"store dominated by isTrailing == true", "the trailing index is written on a path where isTrailing may be false")
+	haveLead, haveTrail := false, false
+	for _, fs := range feasibleStores {
+		if fs.Trailing {
+			haveTrail = true
+		} else {
+			haveLead = true
+		}
+	}
+	if !haveLead || !haveTrail {
+		r.Anchor("R1", "a store for isTrailing == false and one for isTrailing == true in the collecting closure")
+		return
+	}
 
 	// no other store into the two indexes anywhere
 	for _, f := range p.Funcs() {
@@ -126,7 +188,7 @@ func c12R1R3(p *core.Program, r *core.Report, np *core.Func) {
 			}
 			if as, ok := n.(*ast.AssignStmt); ok {
 				for _, l := range as.Lhs {
-					if ix, ok := ast.Unparen(l).(*ast.IndexExpr); ok && isCommentGroupMapField(core.FieldOf(f.Info(), ix.X)) {
+					if ix, ok := ast.Unparen(l).(*ast.IndexExpr); ok && isCGMap(f.Info().TypeOf(ix.X)) {
 						r.Bad("R1", f, "store into a comment index outside the collecting closure", as.Pos(), "comment groups are indexed by a second, unchecked writer")
 					}
 				}
@@ -154,35 +216,40 @@ func c12R1R3(p *core.Program, r *core.Report, np *core.Func) {
 				continue
 			}
 			trailing := tv.Value.String() == "true"
-			arg := ast.Unparen(c.Args[0])
-			construct := "collect(" + core.ExprStr(arg) + ", isTrailing=" + tv.Value.String() + ")"
-			if sel, ok := arg.(*ast.SelectorExpr); ok {
-				switch sel.Sel.Name {
-				case "Doc":
-					r.Check(!trailing, "R1", f, construct, c.Pos(), "a .Doc group is entered as leading", "a .Doc group is entered in the trailing index")
-				case "Comment":
-					r.Check(trailing, "R1", f, construct, c.Pos(), "a .Comment group is entered as trailing",
-						"a node's trailing .Comment group is entered in the leading (doc) index: it becomes the documentation of the declaration on the next line")
-					if trailing {
-						nodeKindsWithComment[core.NamedTypeName(finfo.TypeOf(sel.X))] = true
-					}
-				default:
-					r.Unknown("R1", f, construct, c.Pos(), "group of unknown provenance")
+			for _, site := range expandParam(p, f, c.Args[0], c, 0) {
+				arg := ast.Unparen(site.E)
+				construct := "collect(" + core.ExprStr(arg) + ", isTrailing=" + tv.Value.String() + ")"
+				if site.F != f {
+					construct += " via " + core.ExprStr(site.Call.Fun)
 				}
-				continue
-			}
-			// the generic visit: the type-switch binding for *ast.CommentGroup
-			if v := core.VarOf(finfo, arg); v != nil && core.NamedTypeName(v.Type()) == "go/ast.CommentGroup" {
-				if trailing {
-					r.Bad("R1", f, construct, c.Pos(), "every visited comment group (including doc comments) is entered in the trailing index")
+				if sel, ok := arg.(*ast.SelectorExpr); ok {
+					switch sel.Sel.Name {
+					case "Doc":
+						r.Check(!trailing, "R1", site.F, construct, site.Call.Pos(), "a .Doc group is entered as leading", "a .Doc group is entered in the trailing index")
+					case "Comment":
+						r.Check(trailing, "R1", site.F, construct, site.Call.Pos(), "a .Comment group is entered as trailing",
+							"a node's trailing .Comment group is entered in the leading (doc) index: it becomes the documentation of the declaration on the next line")
+						if trailing {
+							nodeKindsWithComment[core.NamedTypeName(finfo.TypeOf(sel.X))] = true
+						}
+					default:
+						r.Unknown("R1", site.F, construct, site.Call.Pos(), "group of unknown provenance")
+					}
 					continue
 				}
-				ok, why := genericVisitFiltered(p, f, c, v)
-				r.Check(ok, "R1", f, construct, c.Pos(), "generic visit is filtered by a set holding every node's .Comment group",
-					"ast.Inspect's generic *ast.CommentGroup visit also reaches every node's trailing .Comment group; entering it unfiltered in the leading index makes `A int // x` the doc of the next declaration"+why)
-				continue
+				// the generic visit: the type-switch binding for *ast.CommentGroup
+				if v := core.VarOf(finfo, arg); v != nil && core.NamedTypeName(v.Type()) == "go/ast.CommentGroup" {
+					if trailing {
+						r.Bad("R1", site.F, construct, site.Call.Pos(), "every visited comment group (including doc comments) is entered in the trailing index")
+						continue
+					}
+					ok, why := genericVisitFiltered(p, site.F, site.Call, v)
+					r.Check(ok, "R1", site.F, construct, site.Call.Pos(), "generic visit is filtered by a set holding every node's .Comment group",
+						"ast.Inspect's generic *ast.CommentGroup visit also reaches every node's trailing .Comment group; entering it unfiltered in the leading index makes `A int // x` the doc of the next declaration"+why)
+					continue
+				}
+				r.Unknown("R1", site.F, construct, site.Call.Pos(), "group of unknown provenance")
 			}
-			r.Unknown("R1", f, construct, c.Pos(), "group of unknown provenance")
 		}
 	}
 	if calls == 0 {
@@ -293,8 +360,9 @@ func c12R1R3(p *core.Program, r *core.Report, np *core.Func) {
 		}
 		r.Check(first, "R3", col, name+" index: first entry wins", store.Pos(), "store under `existing == nil`", "an existing "+name+" entry is overwritten by a later group")
 	}
-	keyForms(leadStore, false)
-	keyForms(trailStore, true)
+	for _, fs := range feasibleStores {
+		keyForms(fs.S, fs.Trailing)
+	}
 }
 
 func isEndOf(info *types.Info, e ast.Expr, v *types.Var) bool {
@@ -325,7 +393,27 @@ func identFor(info *types.Info, f *core.Func, v *types.Var) ast.Expr {
 // contradict the assumed facts (facts about never-assigned variables only).
 func reachingDefsAssuming(g *cfgx.G, info *types.Info, v *types.Var, at cfgx.Point, assume []cfgx.Fact) (defs []cfgx.Point, fromEntry bool) {
 	isDef := func(q cfgx.Point) bool { return q.Node() != nil && g.Assigns(q.Node(), v) }
-	cutEdge := func(b *cfgBlock, k int) bool {
+	cutEdge := assumeCut(info, assume)
+	for _, d := range g.Points(func(n ast.Node) bool { return g.Assigns(n, v) }) {
+		// the definition itself must be executable under the assumptions
+		if _, feasible := g.Reach(g.Entry(), true, cfgx.Query{Target: func(q cfgx.Point) bool { return q == d }, CutEdge: cutEdge}); !feasible {
+			continue
+		}
+		if _, ok := g.Reach(d, false, cfgx.Query{Target: func(q cfgx.Point) bool { return q == at }, Cut: isDef, CutEdge: cutEdge}); ok {
+			defs = append(defs, d)
+		}
+	}
+	_, fromEntry = g.Reach(g.Entry(), true, cfgx.Query{
+		Target:  func(q cfgx.Point) bool { return q == at },
+		Cut:     func(q cfgx.Point) bool { return q != at && isDef(q) },
+		CutEdge: cutEdge,
+	})
+	return
+}
+
+// assumeCut prunes branch edges whose atoms contradict the assumed facts.
+func assumeCut(info *types.Info, assume []cfgx.Fact) func(b *cfgBlock, k int) bool {
+	return func(b *cfgBlock, k int) bool {
 		if len(b.Succs) != 2 || len(b.Nodes) == 0 {
 			return false
 		}
@@ -342,21 +430,93 @@ func reachingDefsAssuming(g *cfgx.G, info *types.Info, v *types.Var, at cfgx.Poi
 		}
 		return false
 	}
-	for _, d := range g.Points(func(n ast.Node) bool { return g.Assigns(n, v) }) {
-		// the definition itself must be executable under the assumptions
-		if _, feasible := g.Reach(g.Entry(), true, cfgx.Query{Target: func(q cfgx.Point) bool { return q == d }, CutEdge: cutEdge}); !feasible {
+}
+
+// litVar: the local variable a function literal is bound to (`v := func(..){..}`).
+func litVar(f *core.Func) *types.Var {
+	if f.Lit == nil || f.Parent == nil {
+		return nil
+	}
+	var out *types.Var
+	info := f.Info()
+	ast.Inspect(f.Root().Body, func(n ast.Node) bool {
+		switch x := n.(type) {
+		case *ast.AssignStmt:
+			for i, rhs := range x.Rhs {
+				if rhs == ast.Expr(f.Lit) && i < len(x.Lhs) {
+					out = core.VarOf(info, x.Lhs[i])
+				}
+			}
+		case *ast.ValueSpec:
+			for i, rhs := range x.Values {
+				if rhs == ast.Expr(f.Lit) && i < len(x.Names) {
+					out, _ = info.ObjectOf(x.Names[i]).(*types.Var)
+				}
+			}
+		}
+		return out == nil
+	})
+	return out
+}
+
+// argSite: an argument expression, the function it is written in and the call it is passed at.
+type argSite struct {
+	F    *core.Func
+	E    ast.Expr
+	Call *ast.CallExpr
+}
+
+// expandParam: if e is a parameter of the local closure f, the arguments passed
+// for it at every call of that closure (recursively); otherwise e itself.
+func expandParam(p *core.Program, f *core.Func, e ast.Expr, call *ast.CallExpr, depth int) []argSite {
+	info := f.Info()
+	v := core.VarOf(info, e)
+	if v == nil || f.Lit == nil || depth > 2 {
+		return []argSite{{f, e, call}}
+	}
+	i := paramIndex(f, v)
+	wv := litVar(f)
+	if i < 0 || wv == nil || len(funcValueEscapes(p, f, wv)) > 0 {
+		return []argSite{{f, e, call}}
+	}
+	var out []argSite
+	for _, g := range p.Funcs() {
+		if g.Root() != f.Root() {
 			continue
 		}
-		if _, ok := g.Reach(d, false, cfgx.Query{Target: func(q cfgx.Point) bool { return q == at }, Cut: isDef, CutEdge: cutEdge}); ok {
-			defs = append(defs, d)
+		for _, c := range core.Calls(g.Body, true) {
+			if core.VarOf(info, c.Fun) == wv && i < len(c.Args) && !c.Ellipsis.IsValid() {
+				out = append(out, expandParam(p, g, c.Args[i], c, depth+1)...)
+			}
 		}
 	}
-	_, fromEntry = g.Reach(g.Entry(), true, cfgx.Query{
-		Target:  func(q cfgx.Point) bool { return q == at },
-		Cut:     func(q cfgx.Point) bool { return q != at && isDef(q) },
-		CutEdge: cutEdge,
+	if len(out) == 0 {
+		return []argSite{{f, e, call}}
+	}
+	return out
+}
+
+// funcValueEscapes: uses of the closure variable other than calling it.
+func funcValueEscapes(p *core.Program, f *core.Func, wv *types.Var) []ast.Node {
+	info := f.Info()
+	var out []ast.Node
+	root := f.Root()
+	called := map[*ast.Ident]bool{}
+	ast.Inspect(root.Body, func(n ast.Node) bool {
+		if c, ok := n.(*ast.CallExpr); ok {
+			if id, ok := ast.Unparen(c.Fun).(*ast.Ident); ok && info.ObjectOf(id) == types.Object(wv) {
+				called[id] = true
+			}
+		}
+		return true
 	})
-	return
+	ast.Inspect(root.Body, func(n ast.Node) bool {
+		if id, ok := n.(*ast.Ident); ok && info.Uses[id] == types.Object(wv) && !called[id] {
+			out = append(out, id)
+		}
+		return true
+	})
+	return out
 }
 
 // lineClosure: the literal in newPkg returning the fileLine key type.
@@ -418,12 +578,14 @@ func genericVisitFiltered(p *core.Program, f *core.Func, call *ast.CallExpr, x *
 			if !ok || core.VarOf(info, ix.X) != set {
 				return true
 			}
-			sel, ok := ast.Unparen(ix.Index).(*ast.SelectorExpr)
-			if !ok || sel.Sel.Name != "Comment" {
-				bad = true // something else than a .Comment group is filtered out
-				return true
+			for _, site := range expandParam(p, ff, ix.Index, nil, 0) {
+				sel, ok := ast.Unparen(site.E).(*ast.SelectorExpr)
+				if !ok || sel.Sel.Name != "Comment" {
+					bad = true // something else than a .Comment group is filtered out
+					continue
+				}
+				have[core.NamedTypeName(info.TypeOf(sel.X))] = true
 			}
-			have[core.NamedTypeName(info.TypeOf(sel.X))] = true
 			return true
 		})
 	}
